@@ -125,7 +125,53 @@ def run_case(ctx, rep, spec, variables, limit, model, path=None, P=None, start=N
         rep.agree(); rep.count("header-theorem-applies")
 
 
+def relative_session(ctx, rep, seed):
+    """colander (API, then console script) started from two working directories in turn, each holding its own `plt`, with the
+    relative names `plt` / `out`: every output must be the strained copy of the `plt` of its own directory, in that directory"""
+    import random
+    from ..common import chdir
+    from amr_kitchen.colander.colander import Colander
+    rng = random.Random(seed)
+    base = ctx.newdir("c05rel_")
+    dirs = []
+    for k in range(2):
+        d = os.path.join(base, f"case{k}"); os.makedirs(d)
+        spec = plotgen.random_spec(rng, ndims=3, nf=3, data="smallint", B=2, layout="scatter", nlev=2)
+        plotgen.materialize(spec, os.path.join(d, "plt"))
+        dirs.append((d, spec))
+    case = {"relative_session": seed}
+    rep.case({"relsession": seed}, nontrivial=True); rep.count("relative-names-from-two-working-directories")
+    for rnd, how in enumerate(("api", "cli")):
+        for k, (d, spec) in enumerate(dirs):
+            names = list(dedup_names(spec["fields"]))
+            sel = [names[-1], names[0]]
+            outname = f"out{rnd}"
+            try:
+                with chdir(d), alarm(120), quiet(), pools.controlled():
+                    if how == "api":
+                        Colander(plotfile="plt", limit_level=None, output=outname, variables=list(sel)).strain()
+                    else:
+                        from .. import tools
+                        tools.colander_cli("plt", outname, sel, None)
+            except BaseException as e:
+                if isinstance(e, KeyboardInterrupt): raise
+                rep.fail(f"colander ({how}) with relative names from working directory #{k} raised {type(e).__name__}: {e}", case); return
+            try:
+                P = oracle.parse(os.path.join(d, "plt")); Q = oracle.parse(os.path.join(d, outname))
+            except (oracle.OracleError, OSError) as e:
+                rep.fail(f"colander ({how}) with relative names from working directory #{k}: no well-formed output there ({e})", case); return
+            kept = [dedup_names(spec["fields"])[v] for v in sel]
+            ok = Q["fields"] == sel and all(
+                oracle.same_bits(Q["levels"][lv]["data"][b], P["levels"][lv]["data"][b][..., kept])
+                for lv in range(len(P["levels"])) for b in range(len(P["levels"][lv]["idx"])))
+            if not ok:
+                rep.fail(f"colander ({how}) with relative names from working directory #{k}: the output is not the strained copy of that directory's plotfile", case)
+                return
+    rep.agree()
+
+
 def run(ctx, rep, model=True):
+    relative_session(ctx, rep, ctx.rng.randrange(1 << 30))
     n = 20 if ctx.quick else 120
     for i in range(n):
         spec = plotgen.random_spec(ctx.rng, ndims=[3, 2][i % 2], nf=[3, 4, 2, 5, 1][i % 5], data=["bits", "tags"][i % 3 == 2],
@@ -136,6 +182,8 @@ def run(ctx, rep, model=True):
             # species names with a comma (isomers such as 1,3-butadiene) or a space in them
             k = ctx.rng.randrange(len(spec["fields"]))
             spec["fields"][k] = ["Y(C4H6-1,3)", "Y(C5H8 1,3)", "I_R(C4H6-1,3)"][(i // 4) % 3]; rep.count("field-name-with-comma")
+        if i % 6 == 1:
+            spec["cellh_no_final_newline"] = True; rep.count("level-header-without-final-newline")
         path = ctx.newdir("c05in_")
         plotgen.materialize(spec, path)
         P = oracle.parse(path)
@@ -152,4 +200,6 @@ def run(ctx, rep, model=True):
 
 def replay(ctx, rep, obj, model=True):
     c = obj["case"]
+    if "relative_session" in c:
+        relative_session(ctx, rep, c["relative_session"]); return
     run_case(ctx, rep, c["spec"], c["variables"], c["limit"], model, cli=c.get("cli", False))
